@@ -25,7 +25,11 @@ type Sub struct {
 	Ch      chan *nats.Msg
 	NSub    *nats.Subscription
 	Active  bool
-	Step    uint64
+	// Draining: the subscription was drained rather than removed: it takes
+	// no new messages, but those already routed to it are still delivered
+	// to its channel, as nats.go does until the drain has completed
+	Draining bool
+	Step     uint64
 }
 
 // PubRec is one publish attempt by the service.
@@ -326,6 +330,21 @@ func (c *Conn) Unsubscribe(subject string) bool {
 	return found
 }
 
+// Drain is Unsubscribe for a subscription that is drained: the messages
+// already routed to it are still handed to its channel.
+func (c *Conn) Drain(subject string) bool {
+	c.mu.Lock()
+	defer c.mu.Unlock()
+	found := false
+	for _, s := range c.Subs {
+		if s.Active && s.Subject == subject {
+			s.Active, s.Draining = false, true
+			found = true
+		}
+	}
+	return found
+}
+
 // ---- peer side (called by the scheduler goroutine or harness tasks) ----
 
 // The peer-side functions below are called by the scheduler goroutine. In
@@ -403,7 +422,7 @@ func (c *Conn) DeliverHead(lose bool) *Delivery {
 	case lose:
 		d.Dropped = "lost"
 		c.Stats.Lost++
-	case !d.Sub.Active:
+	case !d.Sub.Active && !d.Sub.Draining:
 		d.Dropped = "unsub"
 	default:
 		// the hand-over of the message is a real synchronisation event (as it
